@@ -22,7 +22,7 @@ Definition of_dres (d : dres) (args : list (val F)) : res F :=
   end.
 
 Lemma ev2 : forall o x y, In o binary_ops -> In (kind_of F x) grid_kinds -> In (kind_of F y) grid_kinds ->
-  ev o [x; y] = of_dres (expected2 o (kind_of F x) (kind_of F y)) [x; y].
+  ev o [x; y] = of_dres (expected2 cf o (kind_of F x) (kind_of F y)) [x; y].
 Proof.
   intros o x y Ho Hx Hy. unfold ev, eval_op. cbn [map].
   rewrite (dispatch_table2 cf o _ _ Ho Hx Hy). reflexivity.
@@ -232,7 +232,7 @@ Lemma number_compared : forall x y, number x -> number y ->
   exists a b r, as_num F x = Some a /\ as_num F y = Some b /\ num_compare F fo a b = Some r.
 Proof.
   intros x y Hx Hy.
-  destruct x as [| | a | f | | | |]; try contradiction; destruct y as [| | b | g | | | |]; try contradiction;
+  destruct x as [| | a | f | | | | | |]; try contradiction; destruct y as [| | b | g | | | | | |]; try contradiction;
     cbn in Hx, Hy; cbn [as_num num_compare].
   - eexists _, _, _. repeat split.
   - destruct (fo_cmpZ F fo a g) as [r|] eqn:E.
@@ -261,7 +261,7 @@ Proof.
   pose proof (number_kind x Hx) as Kx. pose proof (number_kind y Hy) as Ky.
   assert (Gx : In (kind_of F x) grid_kinds) by (cbn in Kx |- *; tauto).
   assert (Gy : In (kind_of F y) grid_kinds) by (cbn in Ky |- *; tauto).
-  assert (Ex : forall o t, In o binary_ops -> (forall k1 k2, In k1 [KInt; KFloat] -> In k2 [KInt; KFloat] -> expected2 o k1 k2 = DPayload t) ->
+  assert (Ex : forall o t, In o binary_ops -> (forall k1 k2, In k1 [KInt; KFloat] -> In k2 [KInt; KFloat] -> expected2 cf o k1 k2 = DPayload t) ->
                ev o [x; y] = run_payload F fo t [x; y] /\ ev o [y; x] = run_payload F fo t [y; x]).
   { intros o t Ho Ht. split; rewrite ev2 by assumption; rewrite Ht by assumption; reflexivity. }
   assert (Hc : forall c, ev (op_of c) [x; y] = RVal (VBool (cmp_holds c r)) /\
@@ -389,9 +389,9 @@ Lemma never_ambiguous2 : forall o x y, In o binary_ops -> In (kind_of F x) grid_
   ev o [x; y] <> RErr EAmbiguous.
 Proof.
   intros o x y Ho Hx Hy. rewrite ev2 by assumption.
-  assert (D : expected2 o (kind_of F x) (kind_of F y) <> DAmbiguous).
-  { destruct o; destruct (kind_of F x); destruct (kind_of F y); cbn; discriminate. }
-  destruct (expected2 o (kind_of F x) (kind_of F y)) as [t| |] eqn:E; cbn [of_dres]; try discriminate; [|congruence].
+  assert (D : expected2 cf o (kind_of F x) (kind_of F y) <> DAmbiguous).
+  { clear; destruct cf; destruct o; destruct (kind_of F x); destruct (kind_of F y); cbn; discriminate. }
+  destruct (expected2 cf o (kind_of F x) (kind_of F y)) as [t| |] eqn:E; cbn [of_dres]; try discriminate; [|congruence].
   (* a payload never reports Ambiguous *)
   clear. intros H.
   destruct t; cbn in H;
